@@ -112,6 +112,12 @@ def cmp_values(a, b):
         if sb:
             b = datetime.date.fromisoformat(b[:10])
         if isinstance(a, datetime.date) and isinstance(b, datetime.date):
+            ta, tb = isinstance(a, datetime.datetime), isinstance(b, datetime.datetime)
+            if ta != tb:  # DATE vs DATETIME: the DATE is taken at 00:00:00
+                if not ta:
+                    a = datetime.datetime(a.year, a.month, a.day)
+                else:
+                    b = datetime.datetime(b.year, b.month, b.day)
             return (a > b) - (a < b)
     if isinstance(a, JsonVal) or isinstance(b, JsonVal):
         x = a.v if isinstance(a, JsonVal) else a
@@ -612,8 +618,11 @@ def is_decimal_expr(node, colkinds=None) -> bool:
     if tag == 'func':
         name = node[1]
         if name in ('SUM', 'AVG'):
-            return True
+            # SUM / AVG over a DOUBLE-typed argument is DOUBLE, not DECIMAL (e.g. SUM(`usage` * rate), rate DOUBLE)
+            return not (node[2] and is_double_expr(node[2][0], colkinds))
         if name in ('COALESCE', 'IFNULL', 'GREATEST', 'LEAST'):
+            if any(is_double_expr(a, colkinds) for a in node[2]):
+                return False   # DOUBLE wins over DECIMAL / INT in MySQL's result-type aggregation
             return any(is_decimal_expr(a, colkinds) for a in node[2])
         if name == 'IF':
             return any(is_decimal_expr(a, colkinds) for a in node[2][1:])
@@ -630,6 +639,28 @@ def is_decimal_expr(node, colkinds=None) -> bool:
         return any(is_decimal_expr(th, colkinds) for _, th in node[2]) or is_decimal_expr(node[3], colkinds)
     if tag == 'col' and colkinds:
         return colkinds.get((node[1], node[2]), False) or (node[1] is None and colkinds.get(('*', node[2]), False))
+    return False
+
+
+def is_double_expr(node, colkinds=None) -> bool:
+    """Static approximation of 'MySQL types this expression as DOUBLE' (a DOUBLE column or float literal is involved)."""
+    if not isinstance(node, tuple) or not node:
+        return False
+    tag = node[0]
+    if tag == 'lit':
+        return isinstance(node[1], float)
+    if tag == 'col' and colkinds:
+        return colkinds.get(('dbl', node[1], node[2]), False) or (node[1] is None and colkinds.get(('dbl', '*', node[2]), False))
+    if tag == 'bin' and node[1] in ('+', '-', '*', '/'):
+        return is_double_expr(node[2], colkinds) or is_double_expr(node[3], colkinds)
+    if tag in ('un', 'assign'):
+        return is_double_expr(node[2], colkinds)
+    if tag == 'func':
+        name = node[1]
+        if name in ('SUM', 'AVG', 'MIN', 'MAX', 'COALESCE', 'IFNULL', 'GREATEST', 'LEAST'):
+            return any(is_double_expr(a, colkinds) for a in node[2])
+        if name == 'IF':
+            return any(is_double_expr(a, colkinds) for a in node[2][1:])
     return False
 
 
@@ -1815,6 +1846,10 @@ class Session:
                 if t is None:
                     raise _err(1146, f"Table '{name}' doesn't exist")
                 cols = [c.name for c in t.cols]
+                for c in t.cols:
+                    if str(c.type).upper() in FLOAT_TYPES:
+                        colkinds[('dbl', alias, c.name)] = True
+                        colkinds[('dbl', '*', c.name)] = True
             if alias in meta:
                 raise _err(1066, f"Not unique table/alias: '{alias}'")
             meta[alias] = cols
@@ -1904,10 +1939,29 @@ class Session:
         if tag == 'join':
             _, kind, left, right, on = node
             right_aliases = None
+            using = None
+            if on is not None and on[0] == 'using':
+                la, ra = {}, {}
+                self._aliases_of(left, la)
+                self._aliases_of(right, ra)
+                using = (on[1], list(la), list(ra))
             for lb in self._iter_from(left, scope, base):
                 matched = False
                 for rb in self._iter_from(right, scope, lb):
-                    if on is not None:
+                    if using is not None:
+                        ok = True
+                        for c in using[0]:
+                            ls = [a for a in using[1] if a in scope.meta and c in scope.meta[a]]
+                            rs_ = [a for a in using[2] if a in scope.meta and c in scope.meta[a]]
+                            if len(ls) != 1 or len(rs_) != 1:
+                                raise _err(1054 if not ls or not rs_ else 1052, f"Column '{c}' in from clause is unknown or ambiguous")
+                            lrow, rrow = rb.get(ls[0]), rb.get(rs_[0])
+                            if lrow is None or rrow is None or cmp_values(lrow[c], rrow[c]) != 0:
+                                ok = False
+                                break
+                        if not ok:
+                            continue
+                    elif on is not None:
                         saved = scope.binding
                         scope.binding = rb
                         try:
@@ -1983,6 +2037,12 @@ class Session:
         for i, (e, alias) in enumerate(exp_items):
             if alias is not None and alias not in alias_index:
                 alias_index[alias] = i
+        # ORDER BY <unqualified name>: MySQL searches the select list first (aliases, then plain column references by their
+        # column name, star-expanded ones included) before the FROM tables; a single such select column is not ambiguous
+        select_cols = {}
+        for i, (e, alias) in enumerate(exp_items):
+            if alias is None and e[0] == 'col':
+                select_cols.setdefault(e[2], []).append(i)
 
         def project(b_or_group, is_group):
             if is_group:
@@ -2083,6 +2143,8 @@ class Session:
                 for oe, desc in order:
                     if oe[0] == 'lit' and isinstance(oe[1], int):
                         v = vals[oe[1] - 1]
+                    elif oe[0] == 'col' and oe[1] is None and oe[2] not in alias_index and len(select_cols.get(oe[2], ())) == 1:
+                        v = vals[select_cols[oe[2]][0]]
                     else:
                         v = self.ev(oe, scope)
                     ks.append((v, desc))
@@ -2397,6 +2459,37 @@ class Session:
 
     def exec_delete(self, st, scope):
         _, tname, alias, where, order, limit = st
+        if isinstance(alias, tuple):   # DELETE <alias> FROM <table references> WHERE ...
+            refs = alias[1]
+            sc = Scope(scope)
+            self._from_meta(refs, sc, sc.meta, {})
+            base_tables = {}
+            self._base_tables(refs, base_tables)
+            if tname not in base_tables:
+                raise _err(1109, f"Unknown table '{tname}' in MULTI DELETE")
+            real = base_tables[tname]
+            t = self._table(real)
+            for ev in ('BEFORE', 'AFTER'):
+                if self.db.triggers.get((real, ev, 'DELETE')):
+                    raise SqlUnsupported('DELETE triggers')
+            victims = {}
+            for b in self._iter_from(refs, sc, {}):
+                if where is not None:
+                    sc.binding = b
+                    if not truth(self.ev(where, sc)):
+                        continue
+                row = b.get(tname)
+                if row is None:
+                    continue
+                key = t.key_of(row) if t.pk else next(k for k, r in t.rows.items() if r is row)
+                victims.setdefault(key, row)
+            for key, row in victims.items():
+                del t.rows[key]
+                self._log(('del', real, key, row))
+            self.row_count = len(victims)
+            if not self.frames:
+                self.last_rowcount = len(victims)
+            return
         t = self._table(tname)
         for ev in ('BEFORE', 'AFTER'):
             if self.db.triggers.get((tname, ev, 'DELETE')):
